@@ -14,7 +14,7 @@ REQUIRED_COUNTERS = ["optimal.coneqp", "optimal.qp", "kkt.ldl", "kkt.ldl2", "kkt
 
 def plan(tier):
     if tier == "thorough":
-        return [{"variant": "plain", "workers": 16, "cases": 2500}]
+        return [{"variant": "plain", "workers": 16, "cases": 12000}]
     return [{"variant": "plain", "workers": 16, "cases": 150}]
 
 
